@@ -125,6 +125,10 @@ pub struct PanicRec {
     pub loc: String,
 }
 
+/// Advances with every scheduler step of whatever run is executing in this process: a watchdog on
+/// another thread tells "stopped returning to the scheduler" from "slow" with it.
+pub static PROGRESS: std::sync::atomic::AtomicU64 = std::sync::atomic::AtomicU64::new(0);
+
 #[derive(Clone, Copy, Debug)]
 pub struct Policy {
     /// probability (percent) that the head of the FIFO run queue is chosen; otherwise uniform
@@ -137,10 +141,16 @@ pub struct Policy {
     /// is held back for long stretches is how rare races between a background task (an accept
     /// handshake, a reader) and many foreground operations are reached
     pub starve: Option<(usize, u16)>,
+    /// cooperative-scheduling budget of the transport, as tokio's: (operations per task poll,
+    /// immediate). Once a task has completed that many reads/writes within one poll, every further
+    /// transport operation of that poll returns Pending and wakes the caller - at once from inside
+    /// the call (what tokio does for a future driven by `block_on`, e.g. the body of
+    /// `#[tokio::main]`), or after the poll has returned (what it does on a worker thread)
+    pub coop: Option<(u32, bool)>,
 }
 impl Default for Policy {
     fn default() -> Self {
-        Policy { head_pct: 100, preempt_pm: 0, spurious: false, starve: None }
+        Policy { head_pct: 100, preempt_pm: 0, spurious: false, starve: None, coop: None }
     }
 }
 
@@ -167,6 +177,13 @@ pub struct Rt {
     /// nested environment events still allowed in the current executor step (bounds the rate of
     /// injected wakes so that the injection itself cannot livelock a polling loop)
     nested_left: Cell<u32>,
+    /// transport operations completed in the current task poll / exhausted returns in it
+    pub coop_used: Cell<u32>,
+    pub coop_refused: Cell<u32>,
+    /// set by the transport when one task poll has been refused so often that it can only be
+    /// spinning on the self-waking transport; the poll is then unwound
+    pub spin_pending: Cell<bool>,
+    pub spins: RefCell<Vec<String>>,
 }
 
 pub fn rt() -> Rc<Rt> {
@@ -277,6 +294,10 @@ impl Sim {
             next_task_id: Cell::new(0),
             in_nested: Cell::new(false),
             nested_left: Cell::new(0),
+            coop_used: Cell::new(0),
+            coop_refused: Cell::new(0),
+            spin_pending: Cell::new(false),
+            spins: RefCell::new(Vec::new()),
         });
         RT.with(|r| *r.borrow_mut() = Some(rt.clone()));
         entropy::seed(tape::mix(cfg.seed, 5));
@@ -356,6 +377,7 @@ impl Sim {
             };
             let choice = rt.runq.lock().unwrap().remove(idx).unwrap();
             rt.steps.set(rt.steps.get() + 1);
+            PROGRESS.fetch_add(1, Ordering::Relaxed);
             rt.nested_left.set(3);
             next_seq();
             let code = match choice {
@@ -397,6 +419,8 @@ impl Sim {
         let Some(mut fut) = fut else { return };
         let w = futures::task::waker(waker);
         let mut cx = Context::from_waker(&w);
+        rt.coop_used.set(0);
+        rt.coop_refused.set(0);
         let res = std::panic::catch_unwind(std::panic::AssertUnwindSafe(|| fut.as_mut().poll(&mut cx)));
         match res {
             Ok(Poll::Pending) => {
@@ -411,7 +435,13 @@ impl Sim {
                     let tasks = rt.tasks.borrow();
                     (tasks[id].name.clone(), tasks[id].library)
                 };
-                rt.panics.borrow_mut().push(PanicRec { task: name, library_task: library, msg, loc });
+                if rt.spin_pending.replace(false) {
+                    // not a panic of the code under test: the transport unwound a poll that was
+                    // spinning on it (see net::coop_gate)
+                    rt.spins.borrow_mut().push(name);
+                } else {
+                    rt.panics.borrow_mut().push(PanicRec { task: name, library_task: library, msg, loc });
+                }
                 // the future is poisoned: drop it (may itself panic again; contain that too)
                 let _ = std::panic::catch_unwind(std::panic::AssertUnwindSafe(move || drop(fut)));
             }
@@ -588,7 +618,13 @@ pub mod task {
                     Err(p) => {
                         let (msg, loc) = take_last_panic().unwrap_or_default();
                         if let Some(rt) = try_rt() {
-                            rt.panics.borrow_mut().push(PanicRec { task: tname, library_task: library, msg, loc });
+                            if p.is::<crate::net::CoopSpin>() {
+                                // the transport unwound a poll that was spinning on it (net::coop_gate)
+                                rt.spin_pending.set(false);
+                                rt.spins.borrow_mut().push(tname);
+                            } else {
+                                rt.panics.borrow_mut().push(PanicRec { task: tname, library_task: library, msg, loc });
+                            }
                         }
                         s.val = Some(Err(JoinError::Panic(p)));
                     }
